@@ -259,6 +259,52 @@ def seq_guard(lib, p11drv, seed, idx):
     return {'i': idx, 'trace': p.trace, 'findings': c.findings, 'model_dis': [], 'model_evals': 0, 'stats': stats, 'mode': mode}
 
 
+CLASS_TEMPLATES = [
+    ('data', '0=u:0 0x11=x:0102'),
+    ('X.509 certificate', '0=u:1 0x80=u:0 0x101=x:3000 0x11=x:3082'),
+    ('RSA public key', '0=u:2 0x100=u:0 0x120=x:%s 0x122=x:010001' % ('c3' * 64)),
+    ('EC public key', '0=u:2 0x100=u:3 0x180=x:06082a8648ce3d030107 0x181=x:0441%s' % ('04' + '17' * 64)),
+    ('AES secret key', '0=u:4 0x100=u:0x1f 0x11=x:%s' % ('6b' * 16)),
+    ('generic secret key', '0=u:4 0x100=u:0x10 0x11=x:%s' % ('6c' * 20)),
+    ('EC private key', '0=u:3 0x100=u:3 0x180=x:06082a8648ce3d030107 0x11=x:%s' % ('21' * 32)),
+    ('DSA domain parameters', '0=u:6 0x100=u:1 0x130=x:%s 0x131=x:%s 0x132=x:%s' % ('d1' * 64, 'd2' * 20, 'd3' * 64)),
+    ('DH domain parameters', '0=u:6 0x100=u:2 0x130=x:%s 0x132=x:02' % ('e1' * 64)),
+]
+
+
+def class_walk(c, rng, s, state):
+    """C_CreateObject of every object class with CKA_PRIVATE left to the default, in a session without the normal user: when
+    the call succeeds, the normal user then logs in and READS the object's CKA_PRIVATE - it must be false (no expectation
+    about which classes default to which value is built in); a session object that is gone after the SO's logout was private"""
+    p = c.p
+    for (name, tm) in rng.sample(CLASS_TEMPLATES, rng.randint(3, len(CLASS_TEMPLATES))):
+        tok = rng.choice([0, 1])
+        lab = ('cw%d%s' % (rng.randrange(10 ** 6), name[:2])).encode().hex()
+        r = p.op('create %s %s 1=b:%d 3=x:%s' % (s, tm, tok, lab))
+        if r.get('rv') != '0x0':
+            continue
+        if state.startswith('so'):
+            p.op('logout %s' % s)
+        if p.op('login %s 1 35363738' % s).get('rv') != '0x0':
+            return
+        p.op('findfinal %s' % s)
+        p.op('findinit %s 3=x:%s' % (s, lab))
+        found = [x for x in p.op('find %s 10' % s).get('objs', '').split(',') if x]
+        p.op('findfinal %s' % s)
+        if not found:
+            if state.startswith('so') and not tok:
+                c.bad('C_CreateObject of a %s without CKA_PRIVATE in an SO session created a private object (it was destroyed by the SO\'s C_Logout as private session objects are)' % name)
+        for h in found:
+            v = p.attr(s, h, 2)
+            if v is not None and v != b'\x00':
+                c.bad('C_CreateObject of a %s without CKA_PRIVATE in a %s session succeeded and the object is private (CKA_PRIVATE reads %s once the user is logged in)' % (name, state.replace('_', ' '), v.hex()))
+        p.op('logout %s' % s)
+        if state.startswith('so'):
+            p.op('login %s 0 31323334' % s)
+        if c.findings:
+            return
+
+
 def seq_c01_create(lib, p11drv, seed, idx):
     """C01 for the object-CREATING calls: in a session where the normal user is not logged in, no path (create, generate,
     generate pair, unwrap, derive, copy) may produce a private object - whether the template says CKA_PRIVATE = true or
@@ -317,6 +363,8 @@ def seq_c01_create(lib, p11drv, seed, idx):
                     c.bad('%s in a read-only session created a token object' % path)
                 if c.findings:
                     break
+            if not c.findings and not state.startswith('user') and state.endswith('rw'):
+                class_walk(c, rng, s, state)
             p.op('closeall t0')
             if c.findings:
                 break
